@@ -897,7 +897,7 @@ def run_unit(unit) -> UnitResult:
     res = UnitResult()
     if unit.get("cold"):
         # report what the golden computation itself saw (side effects of a single first call)
-        for op, written, ok in _COLD_VIOLATIONS[:3]:
+        for op, written, ok in sorted(_COLD_VIOLATIONS, key=lambda t: key(t[0]))[:3]:
             scn = {"seed": 0, "mode": "cold", "ops": [op]}
             v = run_scenario(scn)["verdict"]
             if v is not None:
